@@ -155,6 +155,11 @@ func aliasedInput(id int) (input any, variable any) {
 	}
 }
 
+// c05OrderFolds fold the members of the input object in an order-sensitive way.
+var c05OrderFolds = []string{"add", "[.[]] | add", "add(.[])", "to_entries | map(.value) | add?", "reduce .[] as $x (0; . + $x)?", "map_values(numbers) | add", "[.[] | tostring] | join(\",\")", "keys", "[tostream]", "[paths]", "to_entries", "with_entries(.)",
+	"[.. | numbers] | add", "[.[] | numbers] | (add, (map(-.) | add))", "del(.[] | strings, arrays) | add", "[limit(3; .[])]", "first(.[]), last(.[])", "tojson", "@text", "[.[] | numbers] | (add / length)", "map_values(numbers * 2) | add", "any(.[]; . == 1), ([.[] | numbers] | min, max)", "with_entries(select(.value | type == \"number\")) | add",
+	"[foreach (.[] | numbers) as $x (0; . + $x)]", "(.[] | numbers) as $x | $x", "to_entries | map(select(.value | type == \"number\") | .value) | add", "tostring | length", "[.[] | numbers] | sort | add", "@json \"\\(.)\"", "[getpath(paths(type == \"number\"))] | add"}
+
 type c05Case struct {
 	Src     string
 	Alias   int     // aliased input shape (>= 0) ...
@@ -535,6 +540,22 @@ func init() {
 				for _, src := range c05BigPrograms {
 					for _, in := range []any{big, map[string]any{"o": big, "a": arr}, []any{big, big}} {
 						kC05.Do(c, c05Case{Src: src, Alias: -1, Input: &run.TV{V: in}})
+					}
+				}
+			}
+			// folds over the members of an object whose result depends on the order of the members (floating-point sums
+			// that cancel): the order is the key order, never the order a Go map is walked in
+			for variant := 0; variant < c.N(12, 60); variant++ {
+				k := fmt.Sprintf("v%02d", variant)
+				objs := []any{
+					map[string]any{k + "a": 1e100, k + "b": 1.0, k + "c": -1e100},
+					map[string]any{k + "a": 1e16, k + "b": 1.0, k + "c": 1.0, k + "d": -1e16},
+					map[string]any{k + "a": 0.1, k + "b": 0.2, k + "c": 0.3, k + "d": 1e17, k + "e": -1e17, k + "f": 0.7, k + "g": 1e-9, k + "h": 3.0},
+					map[string]any{k + "a": "x", k + "b": 1e100, k + "c": 1.0, k + "d": -1e100, k + "e": []any{1e16, 1.0, -1e16}},
+				}
+				for _, obj := range objs {
+					for _, src := range c05OrderFolds {
+						kC05.Do(c, c05Case{Src: src, Alias: -1, Input: &run.TV{V: obj}})
 					}
 				}
 			}
